@@ -54,6 +54,9 @@ def other_leaves():
         ("p",) + p1, ("p",) + p2, ("p", b"n@h", 2, 1, 3, None), ("p", b"n@h", 1, 3, 3, None), ("p", b"n@h", 1, 2, 4, None), ("p", b"m@h", 9, 9, 9, None),
         ("n",), ("l", []),
         ("b", b""), ("b", b"\x00"), ("b", b"a"), ("b", b"ab"), ("b", b"b"), ("b", b"\xab\xc0"), ("s", b"a"), ("s", b"ab"), ("s", b""),
+        # byte strings in the legacy list-of-bytes form with the very bytes of a bit string (the term holds a Rust String:
+        # valid UTF-8 only)
+        ("s", b"a@"), ("s", b"@"), ("B", b"a@", 2), ("B", b"@", 2), ("B", b"a@", 8), ("b", b"a@"),
         ("B", b"\xab\xc0", 2), ("B", b"\xab\xc0", 3), ("B", b"\xab\x80", 1), ("B", b"\xab", 8), ("B", b"a", 8), ("B", b"", 8), ("B", b"\x80", 1), ("B", b"\x00", 1),
         ("B", b"ab\x80", 1),
     ]
